@@ -4,7 +4,8 @@
 From Coq Require Import String List NArith ZArith Bool Lia ZifyN ZifyNat ZifyBool.
 From J5V.lib Require Import Outcome Json JsonPrint Base64 Civil Decimal.
 From J5V.model Require Import CodecTypes CodecEnc CodecEncSpec CodecEncDec.
-From J5V.proofs Require Import CodecEncProofs CodecEncDecProofs CodecEncTotal.
+From J5V.model Require CodecDecScalar CodecDec CodecDecTree.
+From J5V.proofs Require Import CodecEncProofs CodecEncDecProofs CodecEncTotal CodecEncDecTie.
 Import ListNotations.
 Local Open Scope N_scope.
 
@@ -24,10 +25,10 @@ Theorem C01_codec_roundtrip :
       rep_root any_inner env root m -> encode fmt_float any_inner env root m = Ok txt ->
       exists J, strict_parse txt = Some J /\
         (N.of_nat (jnest J) <= max_nesting ->
-         exists m', decode_tree (dec_scalar parse_float parse_time) env root J = Ok m' /\ equiv_root any_inner env root m m').
+         exists m', decode_tree (dec_scalar parse_float parse_time) print false env root J = Ok m' /\ equiv_root any_inner print env root m m').
 Proof.
   intros fmt_float any_inner parse_float parse_time env Hflat Hnames Hfok Hfrt Htime Hinner.
-  exact (codec_roundtrip fmt_float any_inner (dec_scalar parse_float parse_time) env Hflat Hnames
+  exact (codec_roundtrip fmt_float any_inner (dec_scalar parse_float parse_time) print print_nonempty false env Hflat Hnames
            (scalar_rt_own fmt_float parse_float parse_time Hfok Hfrt Htime) Hinner).
 Qed.
 Print Assumptions C01_codec_roundtrip.
@@ -57,11 +58,11 @@ Theorem C01_full_statement :
     forall root m, rep_root any_inner env root m ->
       exists txt J, encode fmt_float any_inner env root m = Ok txt /\ strict_parse txt = Some J /\
         (N.of_nat (jnest J) <= max_nesting ->
-         exists m', decode_tree (dec_scalar parse_float parse_time) env root J = Ok m' /\ equiv_root any_inner env root m m').
+         exists m', decode_tree (dec_scalar parse_float parse_time) print false env root J = Ok m' /\ equiv_root any_inner print env root m m').
 Proof.
   intros fmt_float any_inner parse_float parse_time env Hflat Hnames Hfok Hfrt Htime Hinner.
   exact (codec_full fmt_float any_inner (dec_scalar parse_float parse_time) env Hflat
-           (scalar_rt_own fmt_float parse_float parse_time Hfok Hfrt Htime) Hnames Hinner).
+           (scalar_rt_own fmt_float parse_float parse_time Hfok Hfrt Htime) Hnames Hinner print print_nonempty false).
 Qed.
 Print Assumptions C01_full_statement.
 Theorem C01_encode_succeeds :
@@ -75,6 +76,43 @@ Proof.
            (scalar_rt_own fmt_float parse_float parse_time Hfok Hfrt Htime)).
 Qed.
 Print Assumptions C01_encode_succeeds.
+
+(* The same statement over the DECODER FAMILY's tree decoder CodecDecTree.tr_decode (the function
+   that proofs/CodecDecTreeProofs.decode_bytes_tree shows the Go-tied token-level model
+   CodecDec.decode_bytes computes whenever the tokenizer reads the text as the tokens of J), with
+   that family's scalar layer CodecDecScalar.scalar_from_go.  Premises on the three library oracles
+   of that model: o_float inverts the float text on finite bit patterns, o_time extends the RFC 3339
+   fast path, o_decimal is the normalised text of lib/Decimal with exponent within +-1000.
+   equiv_root ... raw_dec: an Any payload is stored as the canonical re-print of its tokens.
+   The premise on J is the decoder's documented bound (10000 nested arrays/objects). *)
+Theorem C01_full_statement_dec :
+  forall fmt_float any_inner (orc : CodecDecScalar.oracles) env,
+    oneofs_flat env -> oneof_names_ok env -> env_items_ok env ->
+    float_text_ok fmt_float -> orc_float_ok fmt_float orc -> orc_time_ok orc -> orc_decimal_ok orc ->
+    inner_ok any_inner ->
+    forall root m, rep_root any_inner env root m ->
+      exists txt J, encode fmt_float any_inner env root m = Ok txt /\ strict_parse txt = Some J /\
+        (CodecDecTree.jdepth J <= CodecDec.max_scan_depth ->
+         exists m', CodecDecTree.tr_decode orc env (S (CodecDecTree.jsize J)) root J = Ok m' /\
+                    equiv_root any_inner raw_dec env root m m').
+Proof. exact codec_full_dec. Qed.
+Print Assumptions C01_full_statement_dec.
+Theorem C01_dec_premises_satisfiable :
+  float_text_ok inst_fmt /\ orc_float_ok inst_fmt inst_orc /\ orc_time_ok inst_orc /\ orc_decimal_ok inst_orc.
+Proof. exact orc_premises_satisfiable. Qed.
+Print Assumptions C01_dec_premises_satisfiable.
+(* the bridge itself: every successful run of this family's tree decoder, instantiated with the
+   decoder family's scalar layer, payload spelling and map check, is a run of tr_decode *)
+Theorem C01_decoder_models_agree :
+  forall (orc : CodecDecScalar.oracles) env, env_items_ok env ->
+    forall root J m', CodecDecTree.jdepth J <= CodecDec.max_scan_depth ->
+      decode_tree (dsc_dec orc) raw_dec true env root J = Ok m' ->
+      CodecDecTree.tr_decode orc env (S (CodecDecTree.jsize J)) root J = Ok m'.
+Proof. exact decode_tree_sim. Qed.
+Print Assumptions C01_decoder_models_agree.
+Theorem C01_env_items_decided : forall env, env_items_ok_b env = true -> env_items_ok env.
+Proof. exact env_items_ok_b_sound. Qed.
+Print Assumptions C01_env_items_decided.
 
 (* every scalar kind, every value of its documented domain: the printer's token is read back by
    the matching arm of scalarReflectFromGo to the same value (decimals: to the normalised text).
@@ -173,7 +211,7 @@ Definition rt_tree : jvalue := Eval vm_compute in
 Example C01_roundtrip_example :
   oneofs_flat rt_env /\ oneof_names_ok rt_env /\ rep_root rt_inner rt_env [82] rt_msg /\
   encode rt_fmt rt_inner rt_env [82] rt_msg = Ok rt_txt /\ strict_parse rt_txt = Some rt_tree /\
-  decode_tree (dec_scalar rt_pf rt_pt) rt_env [82] rt_tree = Ok rt_msg.
+  decode_tree (dec_scalar rt_pf rt_pt) print false rt_env [82] rt_tree = Ok rt_msg.
 Proof.
   split; [apply oneofs_flat_b_sound; vm_compute; reflexivity|].
   split; [apply oneof_names_ok_b_sound; vm_compute; reflexivity|].
